@@ -968,6 +968,236 @@ def judge_iso(inp, obs, lr):
     return None
 
 
+# ------------------------------------------------------------------------------------------------
+# Isometry objects with a history (sl2_iso / from_sl2, products, inverses, set(), item assignment, copies): to_sl2 of the
+# object must be ± the matrix the harness tracked and ± to_sl2 of a FRESH Isometry built from the object's current data
+# ------------------------------------------------------------------------------------------------
+from copy import copy as _shallow
+
+
+def gen_isohist(rng, n):
+    for _ in range(n):
+        steps = []
+        for _ in range(rng.randint(2, 6)):
+            steps.append({"op": rng.choice(["mul_right", "mul_left", "inv", "set", "setitem", "copy_then_set", "query"]),
+                          "M": enc_c(fsl2(rng, False, rng.choice(["sl2", "zero", "locus"]))),
+                          "ctor": rng.choice(["sl2_iso", "from_sl2", "list"])})
+        yield {"A": enc_c(fsl2(rng, False, rng.choice(["sl2", "zero", "locus"]))), "ctor": rng.choice(["sl2_iso", "from_sl2", "list"]),
+               "steps": steps}
+
+
+def _mk_iso(M, ctor):
+    if ctor == "from_sl2":
+        return H.Isometry.from_sl2(M.copy())
+    if ctor == "list":
+        return H.sl2_iso(M.tolist())
+    return H.sl2_iso(M.copy())
+
+
+def run_isohist(inp):
+    A = toarr(inp["A"])
+    iso = _mk_iso(A, inp["ctor"])
+    cur = A.copy()                      # the tracked lift, up to sign
+    bad = []
+    copies = []
+    def differential(obj, lift, what):
+        got = np.asarray(obj.to_sl2())
+        fresh = np.asarray(H.Isometry(np.array(np.asarray(obj.proj_data), copy=True)).to_sl2())
+        sc = 1 + float(np.max(np.abs(lift)))
+        if pm_err(got, lift) > 1e-6 * sc:
+            bad.append([what, "to_sl2 is not ± the tracked matrix", got.tolist(), lift.tolist()])
+        elif pm_err(got, fresh) > 1e-6 * sc:
+            bad.append([what, "to_sl2 differs from a fresh Isometry with the same data", got.tolist(), fresh.tolist()])
+    iso.to_sl2()
+    differential(iso, cur, "construction (%s)" % inp["ctor"])
+    for i, st in enumerate(inp["steps"]):
+        M = toarr(st["M"])
+        op = st["op"]
+        what = "step %d: %s" % (i, op)
+        if op == "mul_right":           # (X @ Y).proj_data = Y.data · X.data, i.e. the lift of X @ Y is lift(X)·lift(Y)
+            other = _mk_iso(M, st["ctor"])
+            other.to_sl2()
+            iso = iso @ other
+            cur = cur @ M
+        elif op == "mul_left":
+            other = _mk_iso(M, st["ctor"])
+            other.to_sl2()
+            iso = other @ iso
+            cur = M @ cur
+        elif op == "inv":
+            iso = iso.inv()
+            cur = np.linalg.inv(cur)
+        elif op == "set":
+            iso.set(np.asarray(_mk_iso(M, "sl2_iso").proj_data).copy())
+            cur = M.copy()
+        elif op == "setitem":
+            iso[...] = _mk_iso(M, st["ctor"])
+            cur = M.copy()
+        elif op == "copy_then_set":
+            copies.append((_shallow(iso), cur.copy(), "shallow copy taken before set()"))
+            copies.append((H.Isometry(iso), cur.copy(), "constructor copy taken before set()"))
+            iso.set(np.asarray(_mk_iso(M, "sl2_iso").proj_data).copy())
+            cur = M.copy()
+        differential(iso, cur, what)
+        if len(bad) >= 2:
+            break
+    for obj, lift, label in copies:
+        differential(obj, lift, label)
+    return {"bad": bad[:2]}
+
+
+def judge_isohist(inp, obs, lr):
+    tags0 = {"history": True, "object": "Isometry"}
+    if "exc" in obs:
+        return {"expected": "every step of the history succeeds", "observed": obs, "tags": dict(tags0, exc=obs["exc"])}
+    if obs["bad"]:
+        return {"expected": "to_sl2 of an Isometry with a history = ± the product the history describes = ± to_sl2 of a fresh Isometry",
+                "observed": obs["bad"], "tags": dict(tags0, site=obs["bad"][0][1])}
+    return None
+
+
+# ------------------------------------------------------------------------------------------------
+# every optional keyword argument of every mapped function (enumerated from the signatures), supplied explicitly in a dtype
+# that is independent of the main argument's dtype; references are the independent formulas above
+# ------------------------------------------------------------------------------------------------
+import inspect
+
+KW_FUNCS = {"gln_adjoint": lie.gln_adjoint, "sln_adjoint": lie.sln_adjoint, "sl2c_to_so31": lie.sl2c_to_so31,
+            "sl2c_herm_action": lie.sl2c_herm_action, "o_to_pgl": lie.o_to_pgl, "slc_to_slr": lie.slc_to_slr,
+            "hom.gln_adjoint": lie.hom.gln_adjoint(), "hom.sln_adjoint": lie.hom.sln_adjoint(),
+            "hom.sl2_irrep": lie.hom.sl2_irrep(3), "hom.sl2_to_so21": lie.hom.sl2_to_so21()}
+KW_DTYPES = ["int64", "int32", "float32", "float64", "complex128"]
+
+
+def optional_params(fn):
+    sig = inspect.signature(fn)
+    names = [p.name for p in sig.parameters.values() if p.default is not inspect.Parameter.empty]
+    if any(p.kind == inspect.Parameter.VAR_KEYWORD for p in sig.parameters.values()):
+        # what the **kwargs are forwarded to: `like=` (dtype donor) — except slc_to_slr, which fixes like=mat itself and
+        # forwards the rest to utils.zeros (dtype=)
+        names.append("dtype" if getattr(fn, "__name__", "") == "slc_to_slr" else "like")
+    return names
+
+
+def gen_kw(rng, n):
+    combos = [(f, kw) for f, fn in KW_FUNCS.items() for kw in optional_params(fn)]
+    for _ in range(n):
+        f, kw = rng.choice(combos)
+        yield {"fn": f, "kw": kw, "kw_dtype": rng.choice(KW_DTYPES), "main_dtype": rng.choice(["float64", "int64", "float32", "complex128"]),
+               "k": rng.choice([2, 2, 3]), "seed": rng.randrange(10 ** 9)}
+
+
+def run_kw(inp):
+    r = np.random.default_rng(inp["seed"])
+    f, kw, kd, md, k = inp["fn"], inp["kw"], inp["kw_dtype"], inp["main_dtype"], inp["k"]
+    fn = KW_FUNCS[f]
+    base = f.split(".")[-1]
+    out = {"skipped": False}
+    def intmat(kk, unimodular):
+        while True:
+            N = r.integers(-3, 4, size=(kk, kk))
+            d = round(np.linalg.det(N))
+            if d != 0 and (abs(d) == 1) == unimodular:
+                return N.astype(np.int64)
+    if base in ("gln_adjoint", "sln_adjoint"):
+        ref_f = ref_gln if base == "gln_adjoint" else ref_sln
+        if kw == "inv":
+            # an inverse that is exactly representable in EVERY dtype (an integer matrix N), for a main argument mat = N^-1
+            # that is not integral, and the other way round (integer mat, its float inverse)
+            N = intmat(k, unimodular=bool(r.integers(0, 2)))
+            if r.integers(0, 2):
+                mat, inv = np.linalg.inv(N), N.astype(kd)
+                if md == "complex128":
+                    mat = mat.astype(complex)
+                elif md == "float32":
+                    mat = mat.astype(np.float32)
+            else:
+                mat = N.astype(md)
+                inv = np.linalg.inv(N)
+                inv = inv.astype(kd) if kd in ("float64", "complex128") else inv
+            ms, is_ = mat.copy(), inv.copy()
+            got = np.asarray(fn(mat, inv=inv))
+            ref = ref_f(np.asarray(ms).astype(complex))
+            out["arg_changed"] = not (np.array_equal(mat, ms) and np.array_equal(inv, is_))
+        elif kw == "like":
+            if kd in ("int64", "int32"):
+                return {"skipped": True}           # an integer `like` asks for an integer result: nothing to compare
+            mat = fgl(r_py(r), k, md == "complex128").astype(md if md != "int64" else "float64")
+            if kd != "complex128" and np.iscomplexobj(mat):
+                return {"skipped": True}           # a real `like` for complex data asks for a real result
+            got = np.asarray(fn(mat, like=np.zeros(1, dtype=kd)))
+            ref = ref_f(mat.astype(complex))
+        else:
+            return {"skipped": True}
+    elif base in ("sl2c_to_so31", "sl2c_herm_action"):
+        M = fsl2(r_py(r), True, "sl2")
+        kwargs = {}
+        if kw == "like":
+            kwargs["like"] = np.zeros(1, dtype=kd)
+        elif kw == "force_real":
+            kwargs["force_real"] = bool(r.integers(0, 2))
+        else:
+            return {"skipped": True}
+        got = np.asarray(fn(M, **kwargs))
+        if base == "sl2c_to_so31":
+            ref = ref_so31(M)
+        else:
+            B2 = np.array([[1., -1, 0, 0], [1, 1, 0, 0], [0, 0, 1, 0], [0, 0, 0, 1]])
+            ref = B2 @ ref_so31(M) @ np.linalg.inv(B2)
+    elif base == "o_to_pgl":
+        A = fsl2(r_py(r), False, "locus" if r.integers(0, 2) else "sl2")
+        S = np.asarray(lie.sl2_to_so21(A))
+        got = np.asarray(fn(S, bilinear_form=np.diag([-1, 1, 1]).astype(kd)))
+        out["pm"] = True
+        ref = A
+    elif base == "slc_to_slr":
+        Zm = fgl(r_py(r), k, True)
+        if kd in ("int64", "int32"):
+            return {"skipped": True}               # an integer dtype asks for an integer result
+        got = np.asarray(fn(Zm, dtype=np.dtype(kd)))
+        ref = ref_slr(Zm)
+    elif base in ("sl2_irrep", "sl2_to_so21"):
+        A = fsl2(r_py(r), False, "sl2")
+        Ai = np.linalg.inv(A)
+        got = np.asarray(fn(A, inv=Ai.astype(kd) if kd in ("float64", "complex128") else np.round(Ai).astype(kd)))   # ignored by these maps
+        ref = ref_irrep(A, 3) if base == "sl2_irrep" else ref_so21(A)
+    else:
+        return {"skipped": True}
+    if got.dtype == object:
+        out["object_dtype"] = True
+        return out
+    tol_scale = 1e4 if "float32" in (kd, md) else 1.0
+    if out.get("pm"):
+        e = pm_err(got, ref) / 100
+    else:
+        e = float("inf") if got.shape != ref.shape else float(np.max(np.abs(got - ref)) / (1 + np.max(np.abs(ref))))
+    out["err"] = e / tol_scale
+    out["dtype"] = str(got.dtype)
+    return out
+
+
+def r_py(r):
+    """a python `random.Random` seeded from a numpy generator (the matrix helpers above take the former)"""
+    import random
+    return random.Random(int(r.integers(0, 2 ** 31)))
+
+
+def judge_kw(inp, obs, lr):
+    tags0 = {"fn": inp["fn"], "kw": inp["kw"], "kw_dtype": inp["kw_dtype"], "main_dtype": inp["main_dtype"]}
+    if "exc" in obs:
+        return {"expected": "a value", "observed": obs, "tags": dict(tags0, exc=obs["exc"])}
+    if obs.get("skipped"):
+        return None
+    if obs.get("object_dtype"):
+        return {"expected": "numeric array", "observed": "object dtype", "tags": dict(tags0, object_dtype=True)}
+    if obs.get("arg_changed"):
+        return {"expected": "arguments untouched", "observed": obs, "tags": dict(tags0, site="argument")}
+    if not obs["err"] <= 1e-8:
+        return {"expected": "the value of the independent reference, whatever dtype the optional argument is given in",
+                "observed": obs, "tags": dict(tags0, site="value")}
+    return None
+
+
 def gen_pglform(rng, n):
     for _ in range(n):
         kind = rng.choice(["diag", "generic", "orthogonal"])
@@ -1180,6 +1410,15 @@ CLAUSES = [
            budget={"quick": 400, "thorough": 10000},
            what="f(A·B) = f(A)·f(B), f(1) = 1 for every map (irrep n=1..6, so21, gln/sln adjoint n=2..6, slc_to_slr, block_include, "
                 "sl2c_to_so31; direct and via lie.hom), single matrices and arrays of matrices, arrays = unit-by-unit"),
+    Clause("isometry_history_oracle", "oracle", gen_isohist, run_isohist, judge_isohist, site="hyperbolic.sl2_iso / Isometry.to_sl2 (histories)",
+           budget={"quick": 250, "thorough": 5000},
+           what="Isometry objects built by sl2_iso / from_sl2 (arrays, lists) with a history of products on either side, inverses, set(), item "
+                "assignment, copies taken before a re-set: to_sl2 = ± the tracked product = ± to_sl2 of a fresh Isometry with the same data"),
+    Clause("kwargs_oracle", "oracle", gen_kw, run_kw, judge_kw, site="lie.* optional arguments",
+           budget={"quick": 300, "thorough": 6000},
+           what="every optional keyword argument found in the signatures of the mapped functions (inv=, like= via **kwargs, force_real=, "
+                "bilinear_form=; lie.hom wrappers' inv=) supplied explicitly in int64/int32/float32/float64/complex128 independently of the "
+                "main argument's dtype (e.g. an exactly integral inv= for a non-integral float matrix), against independent references"),
     Clause("isolation_oracle", "oracle", gen_iso, run_iso, judge_iso, site="lie.* / lie.hom.* (histories)",
            budget={"quick": 150, "thorough": 3000},
            what="generic defences G2-G4: histories of 4-8 calls of different Lie maps / n / dtypes (float64, complex128, int64, "
